@@ -23,7 +23,7 @@ CLAIMED = {
                 assumptions=COMMON_E1),
     "C06": dict(engines=["E1"], scope="literal rendering only (text, h'..', b64'..', small integers) composed with the real literal decoders; document-level round trips are outside the claim",
                 assumptions=COMMON_E1),
-    "C07": dict(engines=["E1", "E2"], scope="integer literal decoders incl. 2^63/2^64 windows, hex/base64 decoders on short inputs (E1); text escapes that name no scalar value are rejected by the grammar (E2); unescape_text values, floats and syntactic position are outside the claim",
+    "C07": dict(engines=["E1", "E2", "E3"], scope="integer literal decoders incl. 2^63/2^64 windows, hex/base64 decoders on short inputs (E1); text escapes that name no scalar value are rejected by the grammar, token rules equal RFC uint/int (E2); the code-point arithmetic of unescape_text (surrogate pairs, pass-through) on its MIR (E3); float values and syntactic position are outside the claim",
                 assumptions=COMMON_E1),
     "C09": dict(engines=["E1"], scope="prelude identities at classification level and at verdict level (visit_identifier on scalar documents), .ne versus equality and inclusive versus exclusive ranges at visitor-callback level in both validators, occurrence indicators of repeating map members (? * + versus 0*1 0* 1*); A / B, .and, .within and anything needing a composition of callbacks are outside the claim",
                 assumptions=COMMON_E1),
